@@ -116,4 +116,12 @@ PROPS = {
         ],
         "assumptions": ["scheme comparison follows net/url (scheme is lower-cased by the parser; schemes are case-insensitive per RFC 3986)"],
     },
+    "C02": {
+        "modules": ["SamlModel.Props.C02"],
+        "translated": ["GetAcsUrlAndBindingForResponse"],
+        "trusted_base": COMMON_TRUST + SSO_TRUST + CB_TRUST + [
+            "the auto-submit form (action attribute) is covered byte-exactly by C17; the redirect URL assembly (two fingerprinted lines of sendBackResponse) is hand-modelled as redirectURL",
+        ],
+        "assumptions": ["callback: 'registered' is by composition with the SSO theorem - the stored pair is the pair the SSO endpoint persisted (C02_sso_persists_registered_pair); storage is trusted to return what was stored"],
+    },
 }
